@@ -1,6 +1,7 @@
 package sim
 
 import (
+	"bytes"
 	"errors"
 	"fmt"
 	"io"
@@ -99,6 +100,9 @@ type DiskEnv struct {
 	Counts     map[byte]int   // call class -> count (whole run)
 	Monitor    func(d *SimDisk, e *DiskOp)
 	KeepReads  bool // keep ReadAt/Stat entries in the log
+	// torn writes moved to an earlier byte because the rest of the data
+	// was in the file already
+	TornShifted int
 }
 
 type SimDisk struct {
@@ -305,6 +309,21 @@ func (d *SimDisk) WriteAt(p []byte, off int64) (int, error) {
 			}
 			if n < 0 {
 				n = 0
+			}
+			// A torn write must leave the file different from the complete
+			// write.  Where the write lands on bytes already in the file (the
+			// stale tail of an earlier process) and everything from byte n on
+			// happens to be there already, the "partial" write would be a
+			// complete one reported as failed; tear it earlier, at a byte that
+			// really stays different.
+			if off >= 0 && off+int64(len(p)) <= size0 && bytes.Equal(d.img[off+int64(n):off+int64(len(p))], p[n:]) {
+				for n > 0 && d.img[off+int64(n)-1] == p[n-1] {
+					n--
+				}
+				if n > 0 {
+					n--
+				}
+				d.env.TornShifted++
 			}
 			if off >= 0 && n > 0 {
 				d.apply(p[:n], off)
